@@ -69,7 +69,8 @@ class C06(Check):
     MAX_VIRTUAL = 600
     RULE = ('case = node from generated module classes (1..3 modules, all datatypes, readonly/constant/export flags, '
             'commands, unexported modules) or one of the shipped hardware-free configurations + a probing plan (reads, '
-            'changes with boundary payloads, commands, activations, also at undescribed names; repeated describe) + an '
+            'changes with boundary payloads, commands, activations, also at undescribed names; repeated describe; driver '
+            'glitch assignments of readings the datatype refuses, each followed by a read) + an '
             'optional second client; distinct = different (case digest, schedule digest); non-trivial = >= 1 described '
             'parameter was probed with >= 1 payload the reference validator rejects and >= 1 it accepts')
     REAL = ['frappy.secnode.SecNode.get_descriptive_data / export_accessibles', 'frappy.params export (for_export, '
